@@ -2288,10 +2288,17 @@ class ChannelManager:
         logger.debug('disconnection from %d, cleaning up channels', connection_handle)
         if channels := self.channels.pop(connection_handle, None):
             for channel in channels.values():
-                channel.abort()
+                try:
+                    channel.abort()
+                except Exception:
+                    # A failing listener must not stop the teardown of the others
+                    logger.exception('exception while aborting channel')
         if le_coc_channels := self.le_coc_channels.pop(connection_handle, None):
             for le_coc_channel in le_coc_channels.values():
-                le_coc_channel.abort()
+                try:
+                    le_coc_channel.abort()
+                except Exception:
+                    logger.exception('exception while aborting channel')
         if pending_credit_based_connections := self.pending_credit_based_connections.pop(
             connection_handle, None
         ):
